@@ -47,7 +47,7 @@ def read_spellings(mode, idxs, dims, tol):
     sp = []
     if mode == "label":
         if tol is None:
-            sp += ["getitem", "take", "take_dict", "loc", "sel", "opt_ix", "opt_loc", "opt_sel", "opt_take_label"]
+            sp += ["getitem", "take", "take_dict", "loc", "sel", "opt_ix", "opt_loc", "opt_sel", "opt_take_label", "take_keepdims"]
             if len(nonall) == 1:
                 sp += ["take_axis_name", "take_axis_pos"]
             if len(nonall) <= 1 and len(dims) >= 1:
@@ -57,7 +57,7 @@ def read_spellings(mode, idxs, dims, tol):
             if tol == np.inf:
                 sp += ["nloc", "opt_nloc"]
     else:
-        sp += ["ix", "iloc", "isel", "take_position", "opt_getitem", "opt_iloc", "opt_isel", "opt_take", "opt_take_dict"]
+        sp += ["ix", "iloc", "isel", "take_position", "opt_getitem", "opt_iloc", "opt_isel", "opt_take", "opt_take_dict", "take_keepdims"]
         if len(nonall) == 1:
             sp += ["take_axis_name_position"]
     return sp
